@@ -922,8 +922,19 @@ func genFiles(rt *rapid.T) Case {
 		case 2:
 			content = rapid.SampledFrom(directed).Draw(rt, "directed")
 			name += ".ecal"
+		case 3: // a file edited on another platform: CR LF line ends, also inside strings which span lines
+			content = rapid.SampledFrom([]string{
+				"x := r\"Line one\r\nLine two\"\r\nlog(x)\r\n",
+				"# c\r\nx := r'a\r\n\r\nb'\r\ny := \"p\r\nq\"\r\n",
+				"if a {\r\n    b := [1, 2, 3, 4, 5] # c\r\n}\r\n",
+				"m := {\"k\" : r\"v\r\nw\", \"l\" : 2, \"n\" : 3}\r\n/* c\r\n d */\r\nz\r\n",
+			}).Draw(rt, "crlf")
+			name += ".ecal"
 		default:
 			content = genProg(rt, false).Src
+			if rapid.IntRange(0, 5).Draw(rt, "crlfall") == 0 {
+				content = strings.ReplaceAll(content, "\n", "\r\n")
+			}
 			name += ".ecal"
 		}
 		c.Files = append(c.Files, FileEnt{Path: dir + name, Content: content})
